@@ -46,6 +46,8 @@ structure St where
   sq : Sqrt Pt := {}
   g : Gnat Pt Int := Gnat.init 8 4 12 50 500 false
   injected : Bool := false
+  /-- the one result vector reused by all `nk` / `nr` calls (as in harness/nn.cpp) -/
+  vec : List Pt := []
 
 def kvs (ts : List String) : Option (List (String × String)) :=
   ts.mapM (fun t =>
@@ -110,6 +112,10 @@ def listStr (st : St) (ps : List Pt) : String :=
 
 def ansStr (ds : List Int) : String :=
   "k=" ++ toString ds.length ++ " d=" ++ ",".intercalate (ds.map toString)
+
+/-- what the harness pre-fills the reused result vector with when the previous answer was empty -/
+def sentinel : Pt := (987654321, 987654321)
+def prefill (v : List Pt) : List Pt := if v.isEmpty then [sentinel, sentinel] else v
 
 def ptLt (a b : Pt) : Bool := if a.1 != b.1 then a.1 < b.1 else a.2 < b.2
 
@@ -255,14 +261,20 @@ def stepLinear (st : St) (ts : List String) : St × String :=
     match pt? st rest with
     | some (q, [k]) =>
       match k.toNat? with
-      | some k => fin d (ansStr ((linNearestK st.dist q k d).map (fun x => st.dist q x)))
+      | some k =>
+        let v := linNearestKInto st.dist q k d (prefill st.vec)
+        let r := fin d (ansStr (v.map (fun x => st.dist q x)))
+        ({ r.1 with vec := v }, r.2)
       | none => (st, "bad-op")
     | _ => (st, "bad-op")
   | "nr" :: rest =>
     match pt? st rest with
     | some (q, [r]) =>
       match parseInt? r with
-      | some r => fin d (ansStr ((linNearestR st.dist q r d).map (fun x => st.dist q x)))
+      | some r =>
+        let v := linNearestRInto st.dist q r d (prefill st.vec)
+        let res := fin d (ansStr (v.map (fun x => st.dist q x)))
+        ({ res.1 with vec := v }, res.2)
       | none => (st, "bad-op")
     | _ => (st, "bad-op")
   | _ => (st, "bad-op")
@@ -303,14 +315,20 @@ def stepSqrt (st : St) (ts : List String) : St × String :=
     match pt? st rest with
     | some (q, [k]) =>
       match k.toNat? with
-      | some k => fin s (ansStr ((linNearestK st.dist q k s.data).map (fun x => st.dist q x)))
+      | some k =>
+        let v := linNearestKInto st.dist q k s.data (prefill st.vec)
+        let r := fin s (ansStr (v.map (fun x => st.dist q x)))
+        ({ r.1 with vec := v }, r.2)
       | none => (st, "bad-op")
     | _ => (st, "bad-op")
   | "nr" :: rest =>
     match pt? st rest with
     | some (q, [r]) =>
       match parseInt? r with
-      | some r => fin s (ansStr ((linNearestR st.dist q r s.data).map (fun x => st.dist q x)))
+      | some r =>
+        let v := linNearestRInto st.dist q r s.data (prefill st.vec)
+        let res := fin s (ansStr (v.map (fun x => st.dist q x)))
+        ({ res.1 with vec := v }, res.2)
       | none => (st, "bad-op")
     | _ => (st, "bad-op")
   | _ => (st, "bad-op")
@@ -410,8 +428,9 @@ def stepGnat (st : St) (ts : List String) : St × String :=
     | some (q, [k]) =>
       match k.toNat? with
       | some k =>
-        let (ans, _, ex) := g.nearestK st.dist 1 ord q k
-        (st, ansStr (ans.map (·.1)) ++ fuel ex)
+        let (_, _, ex) := g.nearestK st.dist 1 ord q k
+        let v := g.nearestKInto st.dist 1 ord q k (prefill st.vec)
+        ({ st with vec := v }, ansStr (v.map (fun x => st.dist q x)) ++ fuel ex)
       | none => (st, "bad-op")
     | _ => (st, "bad-op")
   | "nr" :: rest =>
@@ -419,8 +438,9 @@ def stepGnat (st : St) (ts : List String) : St × String :=
     | some (q, [r]) =>
       match parseInt? r with
       | some r =>
-        let (ans, _, ex) := g.nearestR st.dist ord q r
-        (st, ansStr (ans.map (·.1)) ++ fuel ex)
+        let (_, _, ex) := g.nearestR st.dist ord q r
+        let v := g.nearestRInto st.dist ord q r (prefill st.vec)
+        ({ st with vec := v }, ansStr (v.map (fun x => st.dist q x)) ++ fuel ex)
       | none => (st, "bad-op")
     | _ => (st, "bad-op")
   | _ => (st, "bad-op")
